@@ -1,7 +1,361 @@
-(* C10 — the subtype relation obeys its laws and is sound for values.
-   Statements only; every proof is `exact <lemma>` into Lemmas/. *)
+(* C10 — the subtype relation obeys its laws.
+   Statements only; every proof is `exact <lemma>` into Lemmas/.
+
+   On hypotheses: a statement carries no hypothesis when none is needed.  Where
+   one is needed it is only ever "struct keys are distinct, hereditarily"
+   ([keys_ok], Lemmas/TyEq.v), which [wf_ty] implies ([wf_keys_ok]); such
+   statements are given with [wf_ty] under the planned name and with [keys_ok]
+   under the name suffixed [_keys].  The [Example]s at the end show that each
+   remaining hypothesis is necessary and that the relation is not trivial. *)
 From SSL.Model Require Import Base Ty.
 From SSL.Lemmas Require Import TyLemmas.
 
+(* ---------- unfolding equations (arm order of the implementation) ---------- *)
+Theorem ty_eqb_unfold : forall a b,
+  ty_eqb a b =
+  match a, b with
+  | TBool, TBool | TInt, TInt | TFloat, TFloat | TString, TString
+  | TVoid, TVoid | TAny, TAny | TNever, TNever => true
+  | TFun p1 r1, TFun p2 r2 => all2 ty_eqb p1 p2 && ty_eqb r1 r2
+  | TArr e1, TArr e2 | TMut e1, TMut e2 => ty_eqb e1 e2
+  | TTup t1, TTup t2 => all2 ty_eqb t1 t2
+  | TMulti m1, TMulti m2 =>
+      Nat.eqb (length m1) (length m2)
+      && forallb (fun x => existsb (fun y => ty_eqb x y) m2) m1
+      && forallb (fun x => existsb (fun y => ty_eqb x y) m1) m2
+  | TStruct f1, TStruct f2 =>
+      Nat.eqb (length f1) (length f2)
+      && forallb (fun x => match assoc (fst x) f2 with
+                           | Some t => ty_eqb (snd x) t | None => false end) f1
+      && forallb (fun x => match assoc (fst x) f1 with
+                           | Some t => ty_eqb (snd x) t | None => false end) f2
+  | _, _ => false
+  end.
+Proof. exact TyFuel.ty_eqb_unfold. Qed.
+
+Theorem matches_unfold : forall a b,
+  matches a b =
+  match a, b with
+  | TNever, _ => true
+  | TFun p1 r1, TFun p2 r2 =>
+      all2 (fun x y => matches y x) p1 p2 && matches r1 r2
+  | TArr e1, TArr e2 => matches e1 e2
+  | TStruct f1, TStruct f2 =>
+      forallb (fun kv2 => match assoc (fst kv2) f1 with
+                          | Some t1 => matches t1 (snd kv2) | None => false end) f2
+  | TMulti ms, _ => forallb (fun m => matches m b) ms
+  | _, TMulti ms => existsb (fun m => matches a m) ms
+  | _, TAny => true
+  | TTup t1, TTup t2 => all2 matches t1 t2
+  | _, _ => ty_eqb a b
+  end.
+Proof. exact TyFuel.matches_unfold. Qed.
+
+Theorem conjoin_unfold : forall a b,
+  conjoin a b =
+  if ty_eqb a b then a else
+  match a, b with
+  | o, TAny => o
+  | TAny, o => o
+  | TArr e1, TArr e2 => TArr (conjoin e1 e2)
+  | TTup t1, TTup t2 =>
+      if Nat.eqb (length t1) (length t2) then TTup (zip_with conjoin t1 t2) else TNever
+  | TMulti ms, o =>
+      match concat_all (map (fun m => conjoin m o) ms) with Some t => t | None => TNever end
+  | o, TMulti ms =>
+      match concat_all (map (fun m => conjoin m o) ms) with Some t => t | None => TNever end
+  | TFun p1 r1, TFun p2 r2 =>
+      if Nat.eqb (length p1) (length p2) then
+        let r := conjoin r1 r2 in
+        if ty_eqb r TNever then TNever else TFun (zip_with concat p1 p2) r
+      else TNever
+  | _, _ => TNever
+  end.
+Proof. exact TyFuel.conjoin_unfold. Qed.
+
+(* fuel never matters once it covers the two sizes *)
+Theorem eqb_f_fuel : forall n m a b,
+  size a + size b <= n -> size a + size b <= m -> eqb_f n a b = eqb_f m a b.
+Proof. exact TyFuel.eqb_f_fuel. Qed.
+Theorem matches_f_fuel : forall n m a b,
+  size a + size b <= n -> size a + size b <= m -> matches_f n a b = matches_f m a b.
+Proof. exact TyFuel.matches_f_fuel. Qed.
+Theorem conjoin_f_fuel : forall n m a b,
+  size a + size b <= n -> size a + size b <= m -> conjoin_f n a b = conjoin_f m a b.
+Proof. exact TyFuel.conjoin_f_fuel. Qed.
+
+(* ---------- `==` is an equivalence ---------- *)
+Theorem wf_keys_ok : forall a, wf_ty a = true -> keys_ok a = true.
+Proof. exact TyEq.wf_keys_ok. Qed.
+
+Theorem ty_eqb_refl : forall a, wf_ty a = true -> ty_eqb a a = true.
+Proof. exact TyEq.ty_eqb_refl. Qed.
+Theorem ty_eqb_refl_keys : forall a, keys_ok a = true -> ty_eqb a a = true.
+Proof. exact TyEq.ty_eqb_refl_keys. Qed.
+Theorem ty_eqb_sym : forall a b, ty_eqb a b = ty_eqb b a.
+Proof. exact TyEq.ty_eqb_sym. Qed.
+Theorem ty_eqb_trans : forall a b c,
+  ty_eqb a b = true -> ty_eqb b c = true -> ty_eqb a c = true.
+Proof. exact TyEq.ty_eqb_trans. Qed.
+Theorem ty_eqb_mut : forall a b, ty_eqb (TMut a) (TMut b) = ty_eqb a b.
+Proof. exact TyEq.ty_eqb_mut. Qed.
+
+(* ---------- preorder, bottom, top ---------- *)
+Theorem matches_refl : forall a, wf_ty a = true -> matches a a = true.
+Proof. exact TyMatches.matches_refl. Qed.
+Theorem matches_refl_keys : forall a, keys_ok a = true -> matches a a = true.
+Proof. exact TyMatches.matches_refl_keys. Qed.
+
+Theorem matches_trans : forall a b c,
+  matches a b = true -> matches b c = true -> matches a c = true.
+Proof. exact TyMatches.matches_trans. Qed.
+Theorem matches_trans_wf : forall a b c,
+  wf_ty a = true -> wf_ty b = true -> wf_ty c = true ->
+  matches a b = true -> matches b c = true -> matches a c = true.
+Proof. exact TyMatches.matches_trans_wf. Qed.
+
 Theorem never_least : forall b, matches TNever b = true.
 Proof. exact matches_never_l. Qed.
+Theorem any_greatest : forall a, matches a TAny = true.
+Proof. exact matches_any_r. Qed.
+(* on well-formed types nothing but `any` is above `any` ... *)
+Theorem any_only_below_any : forall c, wf_ty c = true -> matches TAny c = true -> c = TAny.
+Proof. exact matches_any_l_wf. Qed.
+(* ... and in general whatever is above `any` is above everything *)
+Theorem above_any_is_top : forall c, matches TAny c = true -> forall a, matches a c = true.
+Proof. exact matches_any_l_all. Qed.
+
+(* `==` is finer than, and compatible with, the subtype relation *)
+Theorem ty_eqb_matches : forall a b, ty_eqb a b = true -> matches a b = true.
+Proof. exact TyMatches.ty_eqb_matches. Qed.
+Theorem matches_eqb_l : forall a a' b, ty_eqb a a' = true -> matches a b = matches a' b.
+Proof. exact TyMatches.matches_eqb_l. Qed.
+Theorem matches_eqb_r : forall a b b', ty_eqb b b' = true -> matches a b = matches a b'.
+Proof. exact TyMatches.matches_eqb_r. Qed.
+
+(* ---------- variance ---------- *)
+Theorem arr_covariant : forall a b, matches (TArr a) (TArr b) = matches a b.
+Proof. exact matches_arr. Qed.
+Theorem tup_covariant : forall l1 l2, matches (TTup l1) (TTup l2) = all2 matches l1 l2.
+Proof. exact matches_tup. Qed.
+Theorem fun_variance : forall p1 r1 p2 r2,
+  matches (TFun p1 r1) (TFun p2 r2) = all2 (fun x y => matches y x) p1 p2 && matches r1 r2.
+Proof. exact matches_fun. Qed.
+Theorem struct_width_depth : forall f1 f2,
+  matches (TStruct f1) (TStruct f2) =
+  forallb (fun kv2 => match assoc (fst kv2) f1 with
+                      | Some t1 => matches t1 (snd kv2) | None => false end) f2.
+Proof. exact matches_struct. Qed.
+Theorem mut_invariant : forall a b, matches (TMut a) (TMut b) = ty_eqb a b.
+Proof. exact matches_mut. Qed.
+
+(* ---------- unions ---------- *)
+Theorem matches_multi_l : forall ms b,
+  matches (TMulti ms) b = forallb (fun m => matches m b) ms.
+Proof. exact TyMatches.matches_multi_l. Qed.
+Theorem matches_multi_r : forall a ms,
+  simple a = true -> matches a (TMulti ms) = existsb (matches a) ms.
+Proof. exact TyMatches.matches_multi_r. Qed.
+(* exactly: the left side is neither a union nor `!` (so `any` is included) *)
+Theorem matches_multi_r_nm : forall a ms,
+  nm a = true -> matches a (TMulti ms) = existsb (matches a) ms.
+Proof. exact TyMatches.matches_multi_r_nm. Qed.
+Theorem matches_in_multi : forall x m ms,
+  In m ms -> matches x m = true -> matches x (TMulti ms) = true.
+Proof. exact TyMatches.matches_in_multi. Qed.
+
+(* ---------- join ---------- *)
+Theorem concat_upper_l : forall a b, wf_ty a = true -> matches a (concat a b) = true.
+Proof. exact TyJoin.concat_upper_l. Qed.
+Theorem concat_upper_r : forall a b, wf_ty b = true -> matches b (concat a b) = true.
+Proof. exact TyJoin.concat_upper_r. Qed.
+Theorem concat_upper_l_keys : forall a b, keys_ok a = true -> matches a (concat a b) = true.
+Proof. exact TyJoin.concat_upper_l_keys. Qed.
+Theorem concat_upper_r_keys : forall a b, keys_ok b = true -> matches b (concat a b) = true.
+Proof. exact TyJoin.concat_upper_r_keys. Qed.
+Theorem concat_least : forall a b c, matches (concat a b) c = matches a c && matches b c.
+Proof. exact TyJoin.concat_least. Qed.
+Theorem concat_least_wf : forall a b c,
+  wf_ty a = true -> wf_ty b = true -> wf_ty c = true ->
+  matches (concat a b) c = matches a c && matches b c.
+Proof. exact TyJoin.concat_least_wf. Qed.
+Theorem concat_wf : forall a b, wf_ty a = true -> wf_ty b = true -> wf_ty (concat a b) = true.
+Proof. exact TyJoin.concat_wf. Qed.
+
+(* semilattice laws, up to mutual matching (concat is order dependent as a list) *)
+Theorem concat_idem : forall a, keys_ok a = true -> concat a a = a.
+Proof. exact TyJoin.concat_idem. Qed.
+Theorem concat_mono : forall a a' b b',
+  keys_ok a' = true -> keys_ok b' = true ->
+  matches a a' = true -> matches b b' = true ->
+  matches (concat a b) (concat a' b') = true.
+Proof. exact TyJoin.concat_mono. Qed.
+Theorem concat_comm_matches : forall a b,
+  keys_ok a = true -> keys_ok b = true -> matches (concat a b) (concat b a) = true.
+Proof. exact TyJoin.concat_comm_matches. Qed.
+Theorem concat_assoc_matches_l : forall a b c,
+  keys_ok a = true -> keys_ok b = true -> keys_ok c = true ->
+  matches (concat (concat a b) c) (concat a (concat b c)) = true.
+Proof. exact TyJoin.concat_assoc_matches_l. Qed.
+Theorem concat_assoc_matches_r : forall a b c,
+  keys_ok a = true -> keys_ok b = true -> keys_ok c = true ->
+  matches (concat a (concat b c)) (concat (concat a b) c) = true.
+Proof. exact TyJoin.concat_assoc_matches_r. Qed.
+Theorem fold_concat_least : forall xs acc c,
+  matches (fold_left concat xs acc) c = matches acc c && forallb (fun x => matches x c) xs.
+Proof. exact TyJoin.fold_concat_least. Qed.
+Theorem fold_concat_wf : forall xs acc,
+  wf_ty acc = true -> (forall x, In x xs -> wf_ty x = true) ->
+  wf_ty (fold_left concat xs acc) = true.
+Proof. exact TyJoin.fold_concat_wf. Qed.
+
+(* concat respects `==`, and is commutative and associative up to `==` *)
+Theorem concat_eqb_compat : forall a a' b b',
+  wf_ty a = true -> wf_ty a' = true -> wf_ty b = true -> wf_ty b' = true ->
+  ty_eqb a a' = true -> ty_eqb b b' = true ->
+  ty_eqb (concat a b) (concat a' b') = true.
+Proof. exact TyCompat.concat_eqb_compat. Qed.
+Theorem concat_comm_eqb : forall a b,
+  wf_ty a = true -> wf_ty b = true -> ty_eqb (concat a b) (concat b a) = true.
+Proof. exact TyCompat.concat_comm_eqb. Qed.
+Theorem concat_assoc_eqb : forall a b c,
+  wf_ty a = true -> wf_ty b = true -> wf_ty c = true ->
+  ty_eqb (concat (concat a b) c) (concat a (concat b c)) = true.
+Proof. exact TyCompat.concat_assoc_eqb. Qed.
+
+(* ---------- meet ---------- *)
+Theorem conjoin_lower_l : forall a b, wf_ty a = true -> matches (conjoin a b) a = true.
+Proof. exact TyJoin.conjoin_lower_l. Qed.
+Theorem conjoin_lower_r : forall a b, wf_ty b = true -> matches (conjoin a b) b = true.
+Proof. exact TyJoin.conjoin_lower_r. Qed.
+Theorem conjoin_lower_l_keys : forall a b, keys_ok a = true -> matches (conjoin a b) a = true.
+Proof. exact TyJoin.conjoin_lower_l_keys. Qed.
+Theorem conjoin_lower_r_keys : forall a b, keys_ok b = true -> matches (conjoin a b) b = true.
+Proof. exact TyJoin.conjoin_lower_r_keys. Qed.
+Theorem conjoin_wf : forall a b, wf_ty a = true -> wf_ty b = true -> wf_ty (conjoin a b) = true.
+Proof. exact TyJoin.conjoin_wf. Qed.
+
+(* ---------- the Option-returning queries preserve well-formedness ---------- *)
+Theorem index_result_wf : forall t r,
+  wf_ty t = true -> index_result t = Some r -> wf_ty r = true.
+Proof. exact TyQuery.index_result_wf. Qed.
+Theorem element_type_wf : forall t r,
+  wf_ty t = true -> element_type t = Some r -> wf_ty r = true.
+Proof. exact TyQuery.element_type_wf. Qed.
+Theorem fn_return_type_wf : forall t r,
+  wf_ty t = true -> fn_return_type t = Some r -> wf_ty r = true.
+Proof. exact TyQuery.fn_return_type_wf. Qed.
+Theorem mut_element_type_wf : forall t r,
+  wf_ty t = true -> mut_element_type t = Some r -> wf_ty r = true.
+Proof. exact TyQuery.mut_element_type_wf. Qed.
+Theorem mut_element_type_spec_wf : forall t r,
+  wf_ty t = true -> mut_element_type_spec t = Some r -> wf_ty r = true.
+Proof. exact TyQuery.mut_element_type_spec_wf. Qed.
+Theorem tuple_element_at_wf : forall i t r,
+  wf_ty t = true -> tuple_element_at i t = Some r -> wf_ty r = true.
+Proof. exact TyQuery.tuple_element_at_wf. Qed.
+Theorem field_type_wf : forall k t r,
+  wf_ty t = true -> field_type k t = Some r -> wf_ty r = true.
+Proof. exact TyQuery.field_type_wf. Qed.
+Theorem iter_element_wf : forall t r,
+  wf_ty t = true -> iter_element t = Some r -> wf_ty r = true.
+Proof. exact TyQuery.iter_element_wf. Qed.
+Theorem params_wf : forall t l,
+  wf_ty t = true -> params t = Some l -> forallb wf_ty l = true.
+Proof. exact TyQuery.params_wf. Qed.
+Theorem flatten_tuple_wf : forall t l,
+  wf_ty t = true -> flatten_tuple t = Some l -> forallb wf_ty l = true.
+Proof. exact TyQuery.flatten_tuple_wf. Qed.
+
+(* ---------- non-vacuity ---------- *)
+Definition ka : ident := [97%Z].
+Definition kb : ident := [98%Z].
+
+Definition ex_nested : ty :=
+  TFun [TMulti [TInt; TArr (TStruct [(ka, TInt); (kb, TMulti [TFloat; TString])])]]
+       (TMut (TMulti [TInt; TVoid])).
+Example ex_nested_wf : wf_ty ex_nested = true.
+Proof. vm_compute; reflexivity. Qed.
+Example ex_nested_refl : matches ex_nested ex_nested = true.
+Proof. vm_compute; reflexivity. Qed.
+
+(* a strict chain t1 < t2 < t3 through function / union / struct types *)
+Definition ex_t1 : ty :=
+  TFun [TMulti [TInt; TFloat; TString]] (TArr (TStruct [(ka, TInt); (kb, TFloat)])).
+Definition ex_t2 : ty :=
+  TFun [TMulti [TInt; TFloat]] (TArr (TStruct [(ka, TMulti [TInt; TFloat])])).
+Definition ex_t3 : ty :=
+  TMulti [TFun [TInt] (TArr (TStruct [])); TVoid].
+Example ex_chain_wf : wf_ty ex_t1 && wf_ty ex_t2 && wf_ty ex_t3 = true.
+Proof. vm_compute; reflexivity. Qed.
+Example ex_chain_up :
+  matches ex_t1 ex_t2 && matches ex_t2 ex_t3 && matches ex_t1 ex_t3 = true.
+Proof. vm_compute; reflexivity. Qed.
+Example ex_chain_strict :
+  matches ex_t2 ex_t1 || matches ex_t3 ex_t2 || matches ex_t3 ex_t1 = false.
+Proof. vm_compute; reflexivity. Qed.
+
+(* contravariance is real: widening a parameter goes down, not up *)
+Example ex_contra :
+  matches (TFun [TMulti [TInt; TFloat]] TInt) (TFun [TInt] TInt) = true /\
+  matches (TFun [TInt] TInt) (TFun [TMulti [TInt; TFloat]] TInt) = false.
+Proof. split; vm_compute; reflexivity. Qed.
+
+(* mut is invariant, and compares its content as a set *)
+Example ex_mut :
+  matches (TMut TInt) (TMut (TMulti [TInt; TFloat])) = false /\
+  matches (TMut (TMulti [TFloat; TInt])) (TMut (TMulti [TInt; TFloat])) = true.
+Proof. split; vm_compute; reflexivity. Qed.
+
+(* join and meet on concrete types *)
+Example ex_concat :
+  concat (TMulti [TInt; TFloat]) (TMulti [TFloat; TString]) = TMulti [TInt; TFloat; TString].
+Proof. vm_compute; reflexivity. Qed.
+Example ex_conjoin :
+  conjoin (TMulti [TInt; TFloat]) (TMulti [TFloat; TString]) = TFloat.
+Proof. vm_compute; reflexivity. Qed.
+Example ex_conjoin_fun :
+  conjoin (TFun [TInt] (TMulti [TInt; TFloat])) (TFun [TString] (TMulti [TFloat; TVoid]))
+  = TFun [TMulti [TInt; TString]] TFloat.
+Proof. vm_compute; reflexivity. Qed.
+
+(* the remaining hypothesis is necessary: with a repeated struct key neither
+   `==` nor matches is reflexive, and the bounds of concat / conjoin fail *)
+Definition ex_dup : ty := TStruct [(ka, TInt); (ka, TFloat)].
+Example ex_dup_not_keys_ok : keys_ok ex_dup = false.
+Proof. vm_compute; reflexivity. Qed.
+Example ex_dup_eqb_irrefl : ty_eqb ex_dup ex_dup = false.
+Proof. vm_compute; reflexivity. Qed.
+Example ex_dup_matches_irrefl : matches ex_dup ex_dup = false.
+Proof. vm_compute; reflexivity. Qed.
+Example ex_dup_concat : matches ex_dup (concat ex_dup TInt) = false.
+Proof. vm_compute; reflexivity. Qed.
+Example ex_dup_conjoin : matches (conjoin ex_dup TAny) ex_dup = false.
+Proof. vm_compute; reflexivity. Qed.
+(* ... and wf_ty is not preserved from ill-formed inputs *)
+Example ex_concat_wf_needs_wf : wf_ty (concat (TMulti [TInt; TInt]) TFloat) = false.
+Proof. vm_compute; reflexivity. Qed.
+
+(* matches_multi_r is exact: for `!` on the left the union arm is not reached *)
+Example ex_multi_r_never :
+  matches TNever (TMulti []) = true /\ existsb (matches TNever) [] = false.
+Proof. split; vm_compute; reflexivity. Qed.
+
+(* the preorder is not antisymmetric up to `==`, even on well-formed types:
+   a union may contain a member that another member already covers *)
+Definition ex_redundant : ty := TMulti [TArr TInt; TArr (TMulti [TInt; TFloat])].
+Example ex_not_antisym :
+  wf_ty ex_redundant = true /\
+  matches ex_redundant (TArr (TMulti [TInt; TFloat])) = true /\
+  matches (TArr (TMulti [TInt; TFloat])) ex_redundant = true /\
+  ty_eqb ex_redundant (TArr (TMulti [TInt; TFloat])) = false.
+Proof. repeat split; vm_compute; reflexivity. Qed.
+
+(* the meet is a lower bound but not the greatest one: two struct types with a
+   common lower bound meet at `!` *)
+Example ex_conjoin_not_glb :
+  conjoin (TStruct [(ka, TInt)]) (TStruct [(kb, TInt)]) = TNever /\
+  matches (TStruct [(ka, TInt); (kb, TInt)]) (TStruct [(ka, TInt)]) = true /\
+  matches (TStruct [(ka, TInt); (kb, TInt)]) (TStruct [(kb, TInt)]) = true /\
+  matches (TStruct [(ka, TInt); (kb, TInt)]) TNever = false.
+Proof. repeat split; vm_compute; reflexivity. Qed.
